@@ -349,6 +349,16 @@ func (x *exerciser) nested(r *lazyproto.DecodeResult, l *level, def lazyproto.De
 				}
 				x.result(sr, levels[i], sub, append(p, i), len(occ[i].Payload) == 0, 0)
 			}
+			// a caller may Close the nested results it was given (as in `defer n.Close()` inside a loop) although the
+			// parent owns them: that must disturb neither the parent nor what later decodes with the same decoder see
+			if (t+len(occ))%2 == 0 {
+				for _, sr := range nrs {
+					if sr != nil {
+						_ = monitor.Try(func() { _ = sr.Close() })
+					}
+				}
+				x.classes["NestedResults/closed-by-caller/"+x.mode+"/"+x.entry]++
+			}
 		}
 	}
 	// multi-element path through FieldData
